@@ -22,7 +22,10 @@ type vHistCfg struct {
 	auditOld bool     // audit every retained version at the end
 	refHash  bool     // compare hashes with the reference IAVL+
 	iso      bool     // compare the working tree shape with the reference
+	avl      bool     // check the AVL+ representation invariant of the working tree
 	freeKey  bool     // also query an unconstrained key at the end
+	reopenCfg bool    // a reopen independently re-chooses cache size and fast-index setting
+	nilKeys  int      // number of pool keys tried by the "setnil" op (default 1)
 	perStep  func(h *vHist)
 	final    func(h *vHist)
 }
@@ -107,8 +110,11 @@ func (h *vHist) nextVersion() int64 {
 }
 
 func (h *vHist) doSet(i int) {
+	h.doSetValue(i, vNewValue("v", h.cfg.valVars))
+}
+
+func (h *vHist) doSetValue(i int, v []byte) {
 	k := h.p.keys[i]
-	v := vNewValue("v", h.cfg.valVars)
 	upd, err := h.tree.Set(k, v)
 	vAssert(err == nil, "set-err")
 	vAssert(upd == h.work.present[i], "set-updated-flag")
@@ -183,10 +189,10 @@ func (h *vHist) resetWorkToLatest() {
 
 // doReopen drops the tree object and opens a new one on the same store (a restart).
 func (h *vHist) doReopen() {
-	if len(h.cfg.caches) > 1 {
+	if h.cfg.reopenCfg && len(h.cfg.caches) > 1 {
 		h.cache = h.cfg.caches[vChoice("cache", len(h.cfg.caches))]
 	}
-	if len(h.cfg.fast) > 1 {
+	if h.cfg.reopenCfg && len(h.cfg.fast) > 1 {
 		h.fastOn = h.cfg.fast[vChoice("fast", len(h.cfg.fast))]
 	}
 	h.open()
@@ -232,7 +238,13 @@ func (h *vHist) step() bool {
 	case "remove":
 		h.doRemove(vChoice("key", h.p.n))
 	case "setnil":
-		h.doSetNil(vChoice("key", h.p.n))
+		nk := h.cfg.nilKeys
+		if nk <= 0 {
+			nk = 1
+		}
+		h.doSetNil(vChoice("key", nk))
+	case "setempty":
+		h.doSetValue(vChoice("key", h.p.n), []byte{})
 	case "commit":
 		h.doCommit()
 	case "rollback":
@@ -267,6 +279,9 @@ func (h *vHist) audit() {
 	vAuditReads(h.tree, h.p, h.work, "work")
 	if h.cfg.iso {
 		vIso(h.tree.ImmutableTree, h.tree.root, h.workRef, "work-iso")
+	}
+	if h.cfg.avl && h.tree.root != nil {
+		vCheckAVL(h.tree.ImmutableTree, h.tree.root, "avl")
 	}
 	if h.cfg.refHash {
 		vAssert(vEqBytes(h.tree.WorkingHash(), rHash(h.workRef, h.nextVersion())), "final-working-hash=reference")
@@ -328,3 +343,48 @@ func vIso(t *ImmutableTree, node *Node, r *rNode, tag string) {
 }
 
 var _ = bytes.Equal
+
+// vCheckAVL verifies the AVL+ representation invariant of the implementation subtree:
+// exact height and size fields, balance factor in {-1,0,1}, routing key = smallest key of
+// the right subtree. It returns the smallest key of the subtree.
+func vCheckAVL(t *ImmutableTree, node *Node, tag string) (min []byte) {
+	if node.subtreeHeight == 0 {
+		vAssert(node.size == 1, tag+":leaf-size")
+		vAssert(node.value != nil, tag+":leaf-value")
+		return node.key
+	}
+	l, err := node.getLeftNode(t)
+	vAssert(err == nil && l != nil, tag+":left")
+	r, err := node.getRightNode(t)
+	vAssert(err == nil && r != nil, tag+":right")
+	lmin := vCheckAVL(t, l, tag)
+	rmin := vCheckAVL(t, r, tag)
+	hh := l.subtreeHeight
+	if r.subtreeHeight > hh {
+		hh = r.subtreeHeight
+	}
+	vAssert(node.subtreeHeight == hh+1, tag+":height-field")
+	vAssert(node.size == l.size+r.size, tag+":size-field")
+	d := int(l.subtreeHeight) - int(r.subtreeHeight)
+	vAssert(d >= -1 && d <= 1, tag+":balance")
+	vAssert(vEqBytes(node.key, rmin), tag+":routing-key=min-of-right")
+	return lmin
+}
+
+// vBuildVersions commits up to maxV versions; each version applies up to maxW writes chosen
+// among Set(any pool key) / Remove(any pool key). Every combination is explored.
+func (h *vHist) vBuildVersions(maxV, maxW int) {
+	nv := 1 + vChoice("nversions", maxV)
+	for v := 0; v < nv; v++ {
+		nw := vChoice("nwrites", maxW+1)
+		for w := 0; w < nw; w++ {
+			c := vChoice("write", 2*h.p.n)
+			if c < h.p.n {
+				h.doSet(c)
+			} else {
+				h.doRemove(c - h.p.n)
+			}
+		}
+		h.doCommit()
+	}
+}
